@@ -28,14 +28,10 @@ func sortNaturalFilter(array []any, key any) any {
 	case key != nil:
 		keyName := fmt.Sprint(key)
 		sort.Sort(keySortable{result, func(m any) string {
-			rv := reflect.ValueOf(m)
-			if rv.Kind() != reflect.Map || rv.Type().Key().Kind() != reflect.String {
-				return ""
-			}
-			ev := rv.MapIndex(reflect.ValueOf(keyName).Convert(rv.Type().Key()))
-			if ev.IsValid() && ev.CanInterface() {
-				if s, ok := ev.Interface().(string); ok {
-					return strings.ToLower(s)
+			// the entry of the record under the key (any map-like representation, Drops resolved), if it is text
+			if v, ok := values.RecordEntry(m, keyName); ok {
+				if rv := reflect.ValueOf(v); rv.Kind() == reflect.String {
+					return strings.ToLower(rv.String())
 				}
 			}
 			return ""
